@@ -1,0 +1,33 @@
+//go:build verif
+// +build verif
+
+package calendar
+
+// Verification hooks (build tag "verif"): observe / reset the single-slot year cache so that
+// call histories can be started cold. No existing line is edited.
+
+// VerifCacheYear returns the lunar year currently held by the cache (ok=false when empty).
+func VerifCacheYear() (year int, ok bool) {
+	lock.Lock()
+	defer lock.Unlock()
+	if CACHE_YEAR == nil {
+		return 0, false
+	}
+	return CACHE_YEAR.year, true
+}
+
+// VerifDropCache empties the year cache.
+func VerifDropCache() {
+	lock.Lock()
+	CACHE_YEAR = nil
+	lock.Unlock()
+}
+
+// VerifLockFree reports whether the cache lock can be taken right now (i.e. nobody leaked it).
+func VerifLockFree() bool {
+	if lock.TryLock() {
+		lock.Unlock()
+		return true
+	}
+	return false
+}
